@@ -204,3 +204,9 @@ Section Resolve.
       end
     else None.
 End Resolve.
+
+(* a sequence of calls on ONE resolver instance: `visit` starts every call from a new context {}
+   (no dict, no parents) and the instance keeps nothing but its method cache, so the model of a
+   call has no input from the previous ones *)
+Definition resolve_calls (tg : option opk) (ah : str) (ts : list item) : list (option item) :=
+  map (resolve tg ah) ts.
